@@ -172,3 +172,37 @@ pub fn text_catalogue(fonts: &[usize], strings: &[&str], line_heights: &[(u8, u3
 pub fn font_index(name: &str) -> usize {
     (0..FONTS.len()).find(|&i| font_name(i) == name).expect("font")
 }
+
+/// Builds a synthetic `MonoFont` (8 glyphs 'a'..='h', replacement index 1) with the given cell size,
+/// spacing and glyphs per row over a generated atlas, and passes it to `f`.
+pub fn with_custom_font<R>(cw: u32, ch: u32, spacing: u32, glyphs_per_row: u32, f: impl FnOnce(&MonoFont<'_>) -> R) -> R {
+    use embedded_graphics::geometry::Size;
+    use embedded_graphics::image::ImageRaw;
+    use embedded_graphics::mono_font::mapping::StrGlyphMapping;
+    use embedded_graphics::mono_font::DecorationDimensions;
+    use embedded_graphics::pixelcolor::BinaryColor;
+    let gpr = glyphs_per_row.max(1);
+    let rows = (8 + gpr - 1) / gpr;
+    let (iw, ih) = (cw * gpr, ch * rows);
+    let bpr = ((iw + 7) / 8) as usize;
+    let mut data = vec![0u8; bpr * ih as usize];
+    for y in 0..ih {
+        for x in 0..iw {
+            if (x * 7 + y * 13 + (x / cw.max(1)) * 3 + (y / ch.max(1)) * 5) % 3 != 0 {
+                data[y as usize * bpr + (x / 8) as usize] |= 0x80 >> (x % 8);
+            }
+        }
+    }
+    let image = ImageRaw::<BinaryColor>::new(&data, Size::new(iw, ih)).expect("atlas size");
+    let mapping = StrGlyphMapping::new("\0ah", 1);
+    let font = MonoFont {
+        image,
+        character_size: Size::new(cw, ch),
+        character_spacing: spacing,
+        baseline: ch.saturating_sub(1),
+        strikethrough: DecorationDimensions::new(ch / 2, 1),
+        underline: DecorationDimensions::new(ch + 1, 1),
+        glyph_mapping: &mapping,
+    };
+    f(&font)
+}
